@@ -4,6 +4,7 @@ import (
 	"encoding/json"
 	"fmt"
 	"log/slog"
+	"reflect"
 	"strings"
 	"sync/atomic"
 	"time"
@@ -55,6 +56,35 @@ var zones = func() []*time.Location {
 const tsLayout = "2006-01-02T15:04:05.000Z07:00"
 
 // checkStep delivers one message and applies the oracle; "" = fine.
+// valueCopyable says whether copying a value of type t by assignment gives an
+// independent copy: no maps, slices, channels, interfaces or pointers in it
+// (time.Time's *Location and a *slog.Logger are immutable, so they may be shared).
+// The search copies the handler at every branch when this holds and rebuilds it
+// from a fresh handler.New by replaying the history when it does not.
+func valueCopyable(t reflect.Type) bool {
+	if t == reflect.TypeOf(time.Time{}) || t == reflect.TypeOf((*slog.Logger)(nil)) {
+		return true
+	}
+	switch t.Kind() {
+	case reflect.Bool, reflect.Int, reflect.Int8, reflect.Int16, reflect.Int32, reflect.Int64,
+		reflect.Uint, reflect.Uint8, reflect.Uint16, reflect.Uint32, reflect.Uint64, reflect.Uintptr,
+		reflect.Float32, reflect.Float64, reflect.Complex64, reflect.Complex128, reflect.String:
+		return true
+	case reflect.Array:
+		return valueCopyable(t.Elem())
+	case reflect.Struct:
+		for i := 0; i < t.NumField(); i++ {
+			if !valueCopyable(t.Field(i).Type) {
+				return false
+			}
+		}
+		return true
+	}
+	return false
+}
+
+var handlerCopyable = valueCopyable(reflect.TypeOf(handler.Handler{}))
+
 func checkStep(h *handler.Handler, st *timeStep, debug bool) (kind, detail string) {
 	t := st.c.MSMType(st.MSM7)
 	ts := st.Illegal
@@ -220,7 +250,7 @@ func timeCheck(r *ev.Run, relaxed bool) {
 	if relaxed {
 		r.Rule = "for each of GPS, Galileo, GLONASS, BeiDou: start time T in {week start, +1 ms, +1 s, Wednesday noon, week end -1 s, -1 ms} of a constellation week, each in 4 time zones, in the week of 2023-05-10 and, with three start times each, in weeks of June 2013 and July 2010 (civil Moscow time UTC+4), the 2019/2020 year end and March/November 2024 (next to the daylight-saving changes of the checker's host zone); first observation u in {week start, +1 ms, Wednesday noon, week end -1 ms, T-1 h, T-1 s, T-1 ms, T, T+1 ms, T+1 h} restricted to the same week (so u<T, u=T and u>T all occur); then every history of depth <=2 (quick) / <=3 (thorough) further messages of any constellation with the C06 step menu; messages are CRC-valid header-only MSM4/MSM7 frames through handler.GetMessage; both log levels. Oracle: SentAt and StartOfWeek parsed with the public DateLayout equal the model's instant and week start. Non-trivial = histories whose first observation differs from T; distinct = distinct (T, history)"
 	} else {
-		r.Rule = "start times T = Wednesday noon and, for each of GPS/Galileo, GLONASS and BeiDou, the roll-over instant -1 ms / +0 / +1 ms, each in UTC, Europe/London, Europe/Moscow and UTC+14, plus mid-week and GLONASS roll-over start times in June 2013, July 2010 (civil Moscow time UTC+4), at the 2019/2020 year end and in the weeks of 13 March and 6 November 2024 (the roll-over after them is the first one computed across a daylight-saving change of the zone the checker process runs in, America/New_York); histories: every sequence of <=3 (quick) / <=4 (thorough, from the UTC start times; <=3 from the others) messages where each message belongs to one of the four constellations (MSM4 and MSM7 alternating) and its true time is the constellation's previous time advanced by one of {0, 1 ms, 1 s, 1 h, 1 d, 5 d 23:59:59.999, to 1 ms before the next roll-over, to the roll-over, to 1 ms after it} (first message: not earlier than T, same constellation week), or carries an illegal timestamp (7 days of ms; all ones; GLONASS day 7; GLONASS 24 h of ms); plus single-constellation histories of depth <=5 (quick) / <=6 (thorough); messages are CRC-valid header-only frames through handler.GetMessage at both log levels (implementation state is cloned at every branch). Oracle: SentAt and StartOfWeek parsed with the public DateLayout equal the true instant and week start of the reference time model; an illegal timestamp gives an error and no time and leaves later messages exact; plus stream histories: four-message histories (first observation, a second constellation, then +0/+1 s/+1 d/+5 d 23:59:59.999/to the roll-over/+1 ms/+2 d, then +1 s/+3 d/past the next roll-over) delivered through Handler.HandleMessages and cut into one, two or three consecutive streams in every way, each stream a further call on the SAME handler with fresh channels. Non-trivial = histories crossing at least one roll-over; distinct = distinct (T, history)"
+		r.Rule = "start times T = Wednesday noon and, for each of GPS/Galileo, GLONASS and BeiDou, the roll-over instant -1 ms / +0 / +1 ms, each in UTC, Europe/London, Europe/Moscow and UTC+14, plus mid-week and GLONASS roll-over start times in June 2013, July 2010 (civil Moscow time UTC+4), at the 2019/2020 year end and in the weeks of 13 March and 6 November 2024 (the roll-over after them is the first one computed across a daylight-saving change of the zone the checker process runs in, America/New_York); histories: every sequence of <=3 (quick) / <=4 (thorough, from the UTC start times; <=3 from the others) messages where each message belongs to one of the four constellations (MSM4 and MSM7 alternating) and its true time is the constellation's previous time advanced by one of {0, 1 ms, 1 s, 1 h, 1 d, 5 d 23:59:59.999, to 1 ms before the next roll-over, to the roll-over, to 1 ms after it} (first message: not earlier than T, same constellation week), or carries an illegal timestamp (7 days of ms; all ones; GLONASS day 7; GLONASS 24 h of ms); plus single-constellation histories of depth <=5 (quick) / <=6 (thorough); messages are CRC-valid header-only frames through handler.GetMessage at both log levels (implementation state is copied at every branch while the Handler struct holds only values - checked by reflection - and rebuilt from a fresh handler by replaying the history otherwise). Oracle: SentAt and StartOfWeek parsed with the public DateLayout equal the true instant and week start of the reference time model; an illegal timestamp gives an error and no time and leaves later messages exact; plus stream histories: four-message histories (first observation, a second constellation, then +0/+1 s/+1 d/+5 d 23:59:59.999/to the roll-over/+1 ms/+2 d, then +1 s/+3 d/past the next roll-over) delivered through Handler.HandleMessages and cut into one, two or three consecutive streams in every way, each stream a further call on the SAME handler with fresh channels. Non-trivial = histories crossing at least one roll-over; distinct = distinct (T, history)"
 	}
 	r.Assumptions = []string{"reference time model /verif/ref/gnsstime.go: GPS and Galileo weeks start Sunday 00:00:00 UTC - 18 s, BeiDou - 4 s, GLONASS day and week on UTC+3", "the precondition of the statement is enforced by construction: per constellation non-decreasing times, consecutive messages less than six days apart, first observation in T's constellation week" + map[bool]string{true: " (before, at or after T)", false: " and not before T"}[relaxed]}
 	const ms = time.Millisecond
@@ -343,6 +373,18 @@ func timeCheck(r *ev.Run, relaxed bool) {
 			maxDepth = depth - 1 // the deepest all-constellation histories only from the UTC start times
 		}
 		var n, tr, rolled int64
+		// a handler that holds maps, slices or pointers cannot be branched by
+		// copying the struct: bring a fresh one to the node's state by replay
+		rebuild := func(h *handler.Handler, steps []timeStep) {
+			if handlerCopyable {
+				return
+			}
+			*h = *handler.New(T, lvl)
+			for i := range steps {
+				st := steps[i]
+				checkStep(h, &st, jb.debug)
+			}
+		}
 		var rec func(nd *node)
 		rec = func(nd *node) {
 			if len(nd.steps) >= maxDepth {
@@ -399,6 +441,7 @@ func timeCheck(r *ev.Run, relaxed bool) {
 					child := *nd
 					child.steps = append(append([]timeStep{}, nd.steps...), timeStep{MSM7: msm7, c: c, u: u})
 					st := &child.steps[len(child.steps)-1]
+					rebuild(&child.h, nd.steps)
 					kind, detail := checkStep(&child.h, st, jb.debug)
 					tr++
 					if kind != "" {
@@ -416,6 +459,7 @@ func timeCheck(r *ev.Run, relaxed bool) {
 					for _, bad := range illegal[c] {
 						child := *nd
 						child.steps = append(append([]timeStep{}, nd.steps...), timeStep{MSM7: msm7, c: c, Illegal: bad})
+						rebuild(&child.h, nd.steps)
 						kind, detail := checkStep(&child.h, &child.steps[len(child.steps)-1], jb.debug)
 						tr++
 						if kind != "" {
